@@ -649,4 +649,12 @@ def run(ctx):
         programs=len(cases), disagreements_checked=len(exact_defs) + len(hash_defs) + 2 * len(dt_defs) + ncoq_wf,
         seconds=dict(go=round(t_go, 1), coq=round(t_coq, 1)),
     )
+    # ---- whole-file tie of the end-to-end theorems (Props/C12File.v): Model/FileImageVlen.v image_v2_vlen vs the library's file
+    from props import c12file
+    fu = c12file.run_unit(ctx)
+    viol += fu.pop("violations")
+    cov["file_image_tie"] = {k: v for k, v in fu.items() if k != "known"}
+    cov["evaluations"] += fu["evaluations"]
+    cov["side_obligations"] = 1
+    cov["side_discharged"] = 0 if any(v.get("what", "").startswith("c12file") for v in viol) else 1
     return dict(violations=viol, known=known, coverage=cov)
